@@ -172,7 +172,9 @@ def triple(ctx, cfg, forced=None):
     if mism:
         pos, w, i, want, got = mism[0]
         collision = ckF in cks or len(set(cks)) < len(cks)
-        key = KNOWN_COLLISION if collision else "interference"
+        # the recorded finding is matched by its stored witness only (forced=...); equal cookies between the
+        # one-field-different tuples of a random triple are a different defect and are reported
+        key = KNOWN_COLLISION if (collision and forced) else ("interference:equal_cookies_on_distinct_flows" if collision else "interference")
         ctx.violation(key, "frame #%d of the interleaving (%s, %s) is answered differently than in isolation: alone=%s interleaved=%s; "
                       "order: %s" % (pos, "target flow" if w == "F" else "other traffic", Fk[i] if w == "F" else Hkall[i],
                                      canon.describe(want), canon.describe(got), word),
